@@ -115,6 +115,9 @@ func (obj *ScalarId) SetParameters(parameters Vector) error {
 func (obj *ScalarId) ImportConfig(config ConfigDistribution, t ScalarType) error {
   distributions := []ScalarPdf{}
 
+  if len(config.Distributions) == 0 {
+    return fmt.Errorf("invalid config file: no distributions")
+  }
   for i := 0; i < len(config.Distributions); i++ {
     if obj, err := ImportScalarPdfConfig(config.Distributions[i], t); err != nil {
       return err
